@@ -3,5 +3,6 @@ pub mod xml;
 pub mod biff8;
 pub mod cfb;
 pub mod ods;
+pub mod xlsb;
 pub mod xlsx;
 pub mod zipw;
